@@ -86,6 +86,35 @@ def probe_parseval(D, N, seed):
     return {"ok": bool(err <= 1e-10 * max(want, 1e-12) + 1e-14 and ok_avg), "err": float(err), "want": float(want), "avg_ok": ok_avg}
 
 
+def probe_channels(D, N, C, seed):
+    """each channel is treated separately: row c of the spectrum of a C-channel state is the spectrum of channel c alone,
+    for power / amplitude and both binnings; and average × (number of modes in the bin) = sum, per channel"""
+    import jax.numpy as jnp
+    import exponax as ex
+    from exponax import spectral as sp
+    rng = np.random.default_rng(seed)
+    u = rng.normal(size=(C,) + (N,) * D) * (1 + np.arange(C)).reshape((C,) + (1,) * D)
+    rad = np.sqrt((np.asarray(sp.build_wavenumbers(D, N)) ** 2).sum(axis=0))
+    counts = np.array([np.sum(np.round(rad) == b) for b in range(N // 2 + 1)])
+    bad = []
+    for power in (True, False):
+        got = {}
+        for rb in ("sum", "average"):
+            full = np.asarray(ex.get_spectrum(jnp.asarray(u), power=power, radial_binning=rb))
+            got[rb] = full
+            if full.shape != (C, N // 2 + 1):
+                bad.append(f"shape {full.shape} (power={power}, {rb})")
+                continue
+            for c in range(C):
+                alone = np.asarray(ex.get_spectrum(jnp.asarray(u[c:c + 1]), power=power, radial_binning=rb))[0]
+                if not np.allclose(full[c], alone, rtol=1e-10, atol=1e-14):
+                    bad.append(f"channel {c} of {C} differs from the same channel alone (power={power}, {rb}): ratio "
+                               f"{(full[c] / np.where(alone == 0, 1, alone)).round(6).tolist()}")
+        if D > 1 and not bad and not np.allclose(got["average"] * counts[None, :], got["sum"], rtol=1e-10, atol=1e-14):
+            bad.append(f"average × count != sum (power={power})")
+    return {"ok": not bad, "bad": bad[:4]}
+
+
 def probe_amplitude(D, N, k, a, phase):
     import jax.numpy as jnp
     import exponax as ex
@@ -114,6 +143,13 @@ def oracle(ctx, deep):
             if not r["ok"]:
                 fails.append({"key": f"C17:parseval:D{D}", "what": f"sum of the power spectrum != 1/2 mean(u_in^2) (D={D}, N={N}, {r})",
                               "probe": "parseval", "args": {"D": D, "N": N, "seed": ctx.seed}, "observed": r})
+            for C in ((2, 3) if not deep else (2, 3, 4)):
+                r = probe_channels(D, N, C, ctx.seed)
+                ctx.count(("oracle_channels", D, N, C))
+                if not r["ok"]:
+                    fails.append({"key": f"C17:channels:D{D}", "what": f"get_spectrum of a {C}-channel state (D={D}, N={N}): " + "; ".join(r["bad"])[:400],
+                                  "probe": "channels", "args": {"D": D, "N": N, "C": C, "seed": ctx.seed}, "observed": r})
+                    break
             ks = _all_k(D, N)
             if not deep and len(ks) > 30:
                 ks = [ks[i] for i in rng.choice(len(ks), 30, replace=False)]
@@ -134,4 +170,4 @@ def oracle(ctx, deep):
 
 
 def replay(probe, args):
-    return {"parseval": probe_parseval, "amplitude": probe_amplitude}[probe](**args)
+    return {"parseval": probe_parseval, "amplitude": probe_amplitude, "channels": probe_channels}[probe](**args)
